@@ -114,4 +114,41 @@ def inFragment (song : Song) (subMap : List (Int × Nat)) : Bool :=
   plainSongB song && routinesB song subMap &&
   song.tracks.all fun p => decide (16 ≤ p.1) || (segCountB p.2 && loopDrumB false p.2)
 
+/-! ### the encodable domain and drum routines (repo fix b6d6699)
+
+The note that ends a drum routine may not be inside a `[]` loop: the converter refuses such a song
+(`err:drumNoteInLoop`), so it is outside the encodable domain of C02.  The oracle decides this from the
+song alone: the routines are those the specification (`Timeline.ticksOf`, execution order) calls. -/
+
+/-- bracket depth at the first note of a track in text order (`none`: no note) -/
+def firstNoteDepth : Nat → List Event → Option Nat
+  | _, [] => none
+  | d, e :: es =>
+    if e.type = ev_NOTE then some d
+    else if e.kind = .loopStart then firstNoteDepth (d + 1) es
+    else if e.kind = .loopEnd then firstNoteDepth (d - 1) es
+    else firstNoteDepth d es
+
+/-- the routine numbers a performance calls, drum-mode state followed as `Timeline.ticksOf` does -/
+def drumCalls : Bool → List Item → List Int
+  | _, [] => []
+  | drum, i :: is =>
+    if i.ev.type = ev_NOTE then (if drum then i.ev.param :: drumCalls drum is else drumCalls drum is)
+    else if i.ev.type = ev_DRUM_MODE then drumCalls (decide (i.ev.param ≠ 0)) is
+    else drumCalls drum is
+
+/-- every drum routine the channel calls (first pass and the pass after the loop-back jump) has its
+first note outside `[]` loops -/
+def routineNotesOutsideLoops (song : Song) (root : List Event) : Bool :=
+  match perf song root with
+  | .error _ => true
+  | .ok items =>
+    let again := match Timeline.afterSegno items with
+      | some suffix => drumCalls (Timeline.drumAt false items) suffix
+      | none => []
+    (drumCalls false items ++ again).all fun p =>
+      match song.track? (trackIdOfParam p) with
+      | none => true
+      | some tevs => match firstNoteDepth 0 tevs with | some (_ + 1) => false | _ => true
+
 end Ctrmml.Fragment
